@@ -9,6 +9,7 @@ import Kodama.DriverAlloc
 import Kodama.DriverLoc
 import Kodama.DriverHeap
 import Kodama.DriverUF
+import Kodama.DriverSpec
 namespace Kodama
 
 class Bits (α : Type) where
@@ -102,6 +103,7 @@ def step (ds : DriverState) (line : String) : DriverState × String :=
   | "uf" :: rest =>
     let (us, out) := DriverUF.stepUF ds.ufs rest
     ({ ds with ufs := us }, out)
+  | "spec" :: rest => (ds, DriverSpec.stepSpec rest)
   | "loc" :: rest => (ds, (Loc.stepLoc rest).getD "bad-op")
   | _ => (ds, "bad-op")
 
